@@ -50,6 +50,10 @@ ASSUMPTIONS = [
     "sizes are generated)",
     "derived quantities (axes_coords, cell_volumes) are C12's model functions; compared at 1e-12 / 1e-11 of the "
     "natural scale (exactly on the dyadic stream where the real computation is exact)",
+    "the theorems use lo + (hi - lo) = hi (true in a field); that the IEEE bound pos (+) size survives a second "
+    "pass through Cuboid is carried by the bit-exact Float replay and by the monitor (identical bounds on every "
+    "route), not by a theorem (no counterexample in 1.2e8 adversarial float pairs)",
+    "pickle and the axes names are not modelled: monitored on the real objects only",
 ]
 TRUSTED_EXTRA = ["IEEE double arithmetic of Lean's Float equals numpy's float64 for + - (bounds of the cuboid)"]
 
